@@ -114,8 +114,8 @@ def tok_f(x) -> str:
     return "x" + f2h(x)
 
 
-def cmp_tokens(a: list[str], b: list[str], rtol: float = RTOL, floor: float = 1.0) -> tuple[bool, str]:
-    """Compare two observation token lists. Returns (equal, description of first difference)."""
+def cmp_tokens(a: list[str], b: list[str], rtol: float = RTOL, floor: float = 1.0, floors: dict | None = None) -> tuple[bool, str]:
+    """Compare two observation token lists. Returns (equal, description of first difference).  `floors`: token index -> floor of that token."""
     if len(a) != len(b):
         return False, f"token count {len(a)} vs {len(b)}"
     for k, (x, y) in enumerate(zip(a, b)):
@@ -124,7 +124,7 @@ def cmp_tokens(a: list[str], b: list[str], rtol: float = RTOL, floor: float = 1.
         if {x, y} <= {"-", "x7ff0000000000000", "xfff0000000000000"}:
             continue        # the implementation side prints +-inf as `-` (the model's `none`)
         if x.startswith("x") and y.startswith("x") and len(x) == 17 and len(y) == 17:
-            if close(h2f(x[1:]), h2f(y[1:]), rtol, floor):
+            if close(h2f(x[1:]), h2f(y[1:]), rtol, (floors or {}).get(k, floor)):
                 continue
             return False, f"token {k}: float {h2f(x[1:])!r} vs {h2f(y[1:])!r}"
         return False, f"token {k}: {x} vs {y}"
